@@ -112,7 +112,7 @@ CHECKS = {
         "jobs": [LOCKSTEP],
         "level": "model_checking",
         "level_text": "every critical-section interleaving (preemption bound 2 quick / 3 thorough) of 2–3 fetch_with callers (threads on the Cache handle, tasks on the AsyncCache handle, mixed) and the loader thread or async loader task the cache spawns: loader invocations per miss generation, returned values, residency, no caller parked forever",
-        "level_note": "scheduling points are the hybrid-lock acquisitions, thread::park/unpark/spawn in the loader path (hook H3) and two points inside the harness loader body; code between two points is an atomic block; async tasks run one per OS thread under the same scheduler (a Pending poll parks the thread in the scheduler, its waker makes it runnable)",
+        "level_note": "scheduling points are the hybrid-lock acquisitions, the acquisitions of the load future's state lock (hook H9), thread::park/unpark/spawn in the loader path (hook H3) and two points inside the harness loader body; code between two points is an atomic block; async tasks run one per OS thread under the same scheduler (a Pending poll parks the thread in the scheduler, its waker makes it runnable)",
         "technique": "stateless exhaustive DFS over schedules of real threads under a controlled scheduler with iterative preemption bounding",
         "design_ref": "§5 C15, §2 E3",
         "rule": "all schedules with ≤ bound preemptions of the programs listed in the scenarios (2–3 callers, same key / same stripe / two shards, after invalidation, stale-within-grace); every schedule re-executed on a fresh cache; non-trivial = operations of two threads overlap",
@@ -173,4 +173,4 @@ CHECKS = {
 # properties not (yet) claimed: id -> reason (kept current; see DESIGN.md)
 NOT_APPLICABLE = {}  # every listed property is claimed; a property dropped from CHECKS must be given a reason here
 
-HOOK_COMMITS = ["750f6f3", "65ea752", "ed0735a", "ff174a5", "d8f7bf2", "82203ff", "b03adbd", "7e9a18f", "49628c7", "1549af9"]
+HOOK_COMMITS = ["750f6f3", "65ea752", "ed0735a", "ff174a5", "d8f7bf2", "82203ff", "b03adbd", "7e9a18f", "49628c7", "1549af9", "2337661"]
